@@ -342,6 +342,9 @@ func runShapes(f *mbt.Flags) {
 			cnt["conv_executed"]++
 			if s.Conv == "T" || s.Conv == "L" {
 				cnt["conv_library_executed"]++ // re-typed as a library type with mutating methods
+				if pathTyp[s.Path] == "sliceByte" && s.Conv == "L" {
+					cnt["conv_p_method_on_victim_bytes_executed"]++
+				}
 				if pathTyp[s.Path] == "sliceInt" || pathTyp[s.Path] == "sliceStr" || pathTyp[s.Path] == "sliceFl" || pathTyp[s.Path] == "namedInts" {
 					cnt["conv_library_slice_executed"]++
 				}
@@ -411,6 +414,9 @@ func runShapes(f *mbt.Flags) {
 				}
 			} else if o.Kind == "ok" && executed {
 				cnt["verdict_ok_unchanged"]++
+				if s.Wk == "byString" || s.Wk == "ruString" {
+					cnt["legal_string_conversion_ok"]++
+				}
 				mbt.Emit(map[string]any{"kind": "benign", "shape": s.id()})
 			} else if executed {
 				cnt["verdict_blocked"]++
